@@ -257,9 +257,11 @@ func (it *Interp) call(f *frame, x *ssa.Call) AnyVal {
 	}
 	switch callee.String() {
 	case "math/bits.Mul64":
-		return it.mul64(iv(0), iv(1))
+		t := it.mul64(iv(0), iv(1))
+		return TupleV{it.note(t[0].(Val)), it.note(t[1].(Val))}
 	case "math/bits.Add64":
-		return it.add64(x, iv(0), iv(1), iv(2))
+		t := it.add64(x, iv(0), iv(1), iv(2))
+		return TupleV{it.note(t[0].(Val)), it.note(t[1].(Val))}
 	case "(encoding/binary.littleEndian).Uint64", "(encoding/binary.littleEndian).Uint32":
 		n := 8
 		if callee.Name() == "Uint32" {
